@@ -1897,11 +1897,11 @@ def complex_samples(
         max_value=max_imag_value,
     )
     complex_dtype = {numpy.float32: numpy.complex64, numpy.float64: numpy.complex128}[dtype]
-    real_part = re.reshape((-1, re.size)).repeat(im.size, 0).astype(complex_dtype)
-    imag_part = im.repeat(2).view(complex_dtype)
-    imag_part.real[:] = 0
-    imag_part = imag_part.reshape((im.size, -1)).repeat(re.size, 1)
-    return real_part + imag_part  # TODO: avoid arithmetic operations
+    # assemble the grid without arithmetic: `re + 1j * im` would turn -0.0 components into 0.0
+    result = numpy.empty((im.size, re.size), dtype=complex_dtype)
+    result.real[:] = re.reshape(1, -1)
+    result.imag[:] = im.reshape(-1, 1)
+    return result
 
 
 def _fix_limit_value(value, dims=1):
